@@ -95,6 +95,7 @@ type vhGen struct {
 	full bool // every component non-zero / non-empty (used for the key-set ground truth)
 	// statistics of the generated value
 	unions, nilCont, enums int
+	abort                  bool // a union nested too deep could not be closed with a union-free member: the value is discarded
 }
 
 func (g *vhGen) value(typ vhreflect.Type, depth int) vhreflect.Value {
@@ -199,6 +200,20 @@ func (g *vhGen) fill(v vhreflect.Value, depth int) {
 		i := 0
 		if !g.full {
 			i = vhrapid.IntRange(0, len(members)-1).Draw(g.t, "member")
+		}
+		if depth > 6 {
+			// recursive unions: close the value with a member that holds no union
+			i = -1
+			for k, m := range members {
+				if !vhHasUnion(m, map[vhreflect.Type]bool{}) {
+					i = k
+					break
+				}
+			}
+			if i < 0 {
+				g.abort = true
+				return
+			}
 		}
 		g.unions++
 		v.Set(g.value(members[i], depth+1))
@@ -770,6 +785,9 @@ func TestVerifHarness(t *vhtesting.T) {
 				}()
 				g := &vhGen{full: true}
 				v := g.value(te.T, 0)
+				if g.abort {
+					return
+				}
 				b, err := vhjson.Marshal(v.Interface())
 				if err != nil {
 					vhEmit(map[string]any{"type": te.Name, "marshal_error": err.Error(), "stage": "full"})
@@ -789,6 +807,9 @@ func TestVerifHarness(t *vhtesting.T) {
 				vhrapid.Check(t, func(rt *vhrapid.T) {
 					g := &vhGen{t: rt}
 					v := g.value(te.T, 0)
+					if g.abort {
+						return
+					}
 					b, err := vhjson.Marshal(v.Interface())
 					if err != nil {
 						vhEmit(map[string]any{"type": te.Name, "marshal_error": err.Error(), "go": vhfmt.Sprintf("%#v", v.Interface())})
@@ -855,8 +876,9 @@ func TestVerifHarness(t *vhtesting.T) {
 						return
 					}
 					docs = append(docs, vhfmt.Sprintf("%#v", v))
-					// every value survives the JSON round trip
-					if i < 5 {
+					// every value survives the JSON round trip (anonymous containers of unions have no
+					// generated wrapper: encoding/json cannot read them back, which is not randdata's business)
+					if i < 5 && !(rv.Type().Name() == "" && vhHasUnion(rv.Type(), map[vhreflect.Type]bool{})) {
 						b, err := vhjson.Marshal(v)
 						if err != nil {
 							vhEmit(map[string]any{"rand": rf.Name, "bad": "marshal error: " + err.Error()})
